@@ -725,17 +725,20 @@ func ruleSnapshot(r *Run) {
 				if ev.Kind != EvReturn || ev.Depth != 0 {
 					continue
 				}
-				lit := r.P.compositeOf(tf, ev.Results[0])
+				lit, lfn := r.P.compositeOfIn(tf, ev.Results[0])
 				ok := lit != nil
+				detail := "no literal"
 				if ok {
+					detail = ""
 					want := map[string]string{"Id": "recv.ID", "ParticipantId": "recv.ParticipantID", "Flag": "recv.Flag", "Pose": "recv.pose.call:Pose.ToProtobuf()"}
 					for f, w := range want {
-						if r.P.Canon(tf, litField(lit, f)) != w {
+						if got := r.P.Canon(lfn, litField(lit, f)); got != w {
 							ok = false
+							detail += f + "=" + got + " "
 						}
 					}
 				}
-				r.CheckT("C7", tf.Name+":fields", ok, tf.Body.Pos(), &path, "an entity is serialised with its id, creator, flag and current pose")
+				r.CheckT("C7", tf.Name+":fields", ok, tf.Body.Pos(), &path, "an entity is serialised with its id, creator, flag and current pose (%s)", detail)
 			}
 		}
 	}
